@@ -154,7 +154,7 @@ def py_filter_sigs(ctx):
         kwo = [a.arg for a in f.args.kwonlyargs]
         def ret_ctors(fn_, depth=0):
             out_ = set()
-            for r in ast.walk(fn_):
+            for r in core.own_walk(fn_):
                 if isinstance(r, ast.Return) and isinstance(r.value, ast.Call):
                     t = ast.unparse(r.value.func)
                     callee = core.find_func(ekf, t[5:]) if t.startswith("self.") else None
